@@ -1,18 +1,27 @@
 (* Properties/C10.v — a schema received from a plugin is rejected with an error or fully usable.
-   Statements only; proofs in Proofs/C10Total.v.  Model: Schema/Describe.v (`rebuild` = UnserializeScope,
-   `rebuild_plugin` = UnserializeSchema / Client.ReadSchema, as they are after the fixes for D30, D31, D32,
-   D40), tied to the SDK by the family c10mutants on every run.
+   Statements only; proofs in Proofs/C10Total.v (the loader is total), Proofs/C10Shape.v (what holds of its
+   result by construction), Proofs/C10UseNoPanic.v / C10UseTerm.v (C04's totality under the part of
+   well-formedness that is used, assembled in C10UseMain.v) and Proofs/C10Usable.v, C10UsableExt.v (the composition).  Model: Schema/Describe.v
+   (`rebuild` = UnserializeScope, `rebuild_plugin` = UnserializeSchema / Client.ReadSchema, as they are after
+   the fixes for D30, D31, D32, D40), tied to the SDK by the family c10mutants on every run.
 
-   How this composes with C04 (another work package: "wf => every operation is total"): c10_wf is the
-   part of well-formedness that a description from the wire can violate — roots, self-namespace
-   references, one-of members against the inline flag, decodable defaults — stated over the same
-   resolution environment (Syntax.resolve / env_enter) that Ops.v uses, so that the Panic branches of
-   Ops.v ("unlinked reference", "root object not found") are unreachable on an accepted schema.  The
-   remaining conjuncts of C04's wf (unique keys of the association lists, map key kinds, patterns that
-   compile) hold by construction of `parse`: maps are built with replace-or-append, map keys are read by
-   parse_key (integer / string only), patterns are accepted only when regexp.Compile succeeds. *)
+   Part 1 (C10_total, C10_total_plugin): for EVERY decoded value the loader returns an error or a schema
+   satisfying c10_wf — never Panic, never OutOfFuel.
+   Part 2 (C10_usable, C10_usable_plugin): "fully usable" = every operation of Schema/Ops.v is total on the
+   returned schema in the sense of C04.  c10_wf (established by the link step) and `shape` (established by
+   construction of `parse`: distinct keys of every map, map key kinds, one-of key and member kinds, scopes
+   hold objects) give `wf_use`, the part of C04's wf_schema the operations use; wf_schema itself is NOT
+   established (the loader checks "id = key" for the root object only, C10_wf_schema_not_established) and
+   is not needed (C10_wf_relation: wf_schema <-> wf_use /\ ids_ok; no operation reads an object's id).
+   The two known-finding classes of C04 (D11 no_inline_cycle, D50 defaults_total) are reachable through the
+   loader (C10_inline_cycle_refuted, C10_default_cycle_refuted), so they stay as hypotheses of the
+   termination half; the no-panic half has none.
+   Part 3 (C10_usable_applied_namespaces): UnserializeScope returns references into other namespaces unlinked
+   (and does not check a one-of member that is such a reference); once the caller has applied those namespaces
+   (the `e_ext` of the environment) the scope is fully usable in the same sense. *)
 From Verif Require Import Base.Prelude Base.Str Base.Float Base.GoVal
-  Schema.Regex Schema.Units Schema.Syntax Schema.Ops Schema.Describe Proofs.C10Total.
+  Schema.Regex Schema.Units Schema.Syntax Schema.Ops Schema.Wf Schema.Total Schema.Describe
+  Proofs.C04Refuted Proofs.C10Total Proofs.C10Shape Proofs.C10UseNoPanic Proofs.C10UseMain Proofs.C10Usable Proofs.C10UsableExt.
 Open Scope string_scope.
 
 (* UnserializeScope: for EVERY decoded value, with every behaviour of the recorded libraries
@@ -97,3 +106,208 @@ Theorem C10_prefix_refuted :
      end = true.
 Proof. split; vm_compute; reflexivity. Qed.
 Print Assumptions C10_prefix_refuted.
+
+(* ================= Part 2: an accepted schema is fully usable (C10 composed with C04) ================= *)
+
+(* what holds of every schema the loader returns, by construction of `parse` *)
+Theorem C10_shape :
+  forall (words : list (string * bool)) (pu : units -> string -> option fl) (cu : units)
+         (rp : string -> option re) (jor : oracles) (d : gval) (s : schema),
+  rebuild words pu cu rp jor d = Ok s -> shape s = true.
+Proof. exact shape_rebuild. Qed.
+Print Assumptions C10_shape.
+
+(* the link between the loader's well-formedness and C04's: c10_wf, shape and "no reference into another
+   namespace" give wf_use ... *)
+Theorem C10_link :
+  forall (jor : oracles) (s : schema),
+  c10_wf jor s = true -> shape s = true -> foreign_refs s = false -> wf_use (mkEnv [] [] jor) s = true.
+Proof. exact c10_wf_use. Qed.
+Print Assumptions C10_link.
+
+(* ... and wf_use is C04's wf_schema without the one conjunct no operation reads ("every object of a scope
+   is stored under its own id"; wf_use keeps "is an object") *)
+Theorem C10_wf_relation :
+  forall (e : env) (s : schema), wf_schema e s = true <-> wf_use e s = true /\ ids_ok e s = true.
+Proof. exact wf_schema_iff_use. Qed.
+Print Assumptions C10_wf_relation.
+
+(* UnserializeScope.  `foreign_refs s = false`: the scope has no reference into another namespace —
+   UnserializeScope returns those unlinked, for the caller to apply the namespace (C10_scope_foreign_ref_refuted
+   below); UnserializeSchema rejects them, so C10_usable_plugin has no such hypothesis. *)
+Theorem C10_usable :
+  forall (words : list (string * bool)) (pu : units -> string -> option fl) (cu : units)
+         (rp : string -> option re) (jor : oracles) (d : gval) (s : schema),
+  rebuild words pu cu rp jor d = Ok s -> foreign_refs s = false ->
+  (* no operation ever panics: every Go value, every fuel, no further hypothesis *)
+  (forall (f : nat) (v : gval) (w : string),
+     unser words pu f (mkEnv [] [] jor) s v <> Panic w /\ validate words pu f (mkEnv [] [] jor) s v <> Panic w /\
+     serialize words pu f (mkEnv [] [] jor) s v <> Panic w /\ compat words pu f (mkEnv [] [] jor) s v <> Panic w)
+  /\
+  (* and outside the two known-finding classes of C04 (D11, D50) every operation terminates within fuel_bound *)
+  (forall K : nat, no_inline_cycle (mkEnv [] [] jor) s = true -> defaults_total words pu K (mkEnv [] [] jor) s = true ->
+     forall (v : gval) (f : nat), (fuel_bound K (mkEnv [] [] jor) s v <= f)%nat ->
+       unser words pu f (mkEnv [] [] jor) s v <> OutOfFuel /\ validate words pu f (mkEnv [] [] jor) s v <> OutOfFuel /\
+       serialize words pu f (mkEnv [] [] jor) s v <> OutOfFuel /\ compat words pu f (mkEnv [] [] jor) s v <> OutOfFuel).
+Proof. exact c10_usable_explicit. Qed.
+Print Assumptions C10_usable.
+
+(* UnserializeSchema / Client.ReadSchema: every step input, output and signal data schema of an accepted
+   plugin schema *)
+Theorem C10_usable_plugin :
+  forall (words : list (string * bool)) (pu : units -> string -> option fl) (cu : units)
+         (rp : string -> option re) (jor : oracles) (d : gval) (p : dplugin),
+  rebuild_plugin words pu cu rp jor d = Ok p ->
+  forall s : schema, In s (plugin_scopes p) ->
+  (forall (f : nat) (v : gval) (w : string),
+     unser words pu f (mkEnv [] [] jor) s v <> Panic w /\ validate words pu f (mkEnv [] [] jor) s v <> Panic w /\
+     serialize words pu f (mkEnv [] [] jor) s v <> Panic w /\ compat words pu f (mkEnv [] [] jor) s v <> Panic w)
+  /\
+  (forall K : nat, no_inline_cycle (mkEnv [] [] jor) s = true -> defaults_total words pu K (mkEnv [] [] jor) s = true ->
+     forall (v : gval) (f : nat), (fuel_bound K (mkEnv [] [] jor) s v <= f)%nat ->
+       unser words pu f (mkEnv [] [] jor) s v <> OutOfFuel /\ validate words pu f (mkEnv [] [] jor) s v <> OutOfFuel /\
+       serialize words pu f (mkEnv [] [] jor) s v <> OutOfFuel /\ compat words pu f (mkEnv [] [] jor) s v <> OutOfFuel).
+Proof. exact c10_usable_plugin_explicit. Qed.
+Print Assumptions C10_usable_plugin.
+
+(* ---- instances: the hypotheses are satisfiable, on a recursive scope that is accepted and used ---- *)
+Definition x_node : gval :=
+  u_scope "N" [(vstr "N", u_obj "N" [(vstr "next", u_prop (u_ref "N" "") None);
+                                     (vstr "n", u_prop (dobj [("type_id", vstr "integer")]) (Some "5"));
+                                     (vstr "kids", u_prop (dobj [("type_id", vstr "list"); ("items", u_ref "M" "")]) None)]);
+               (vstr "M", u_obj "M" [(vstr "p", u_prop (dobj [("type_id", vstr "any")]) None)])].
+Definition x_node_value : gval :=
+  VMap t_any_map false
+    [(vstr "next", VMap t_str_map false [(vstr "kids", VSlice t_any_slice false [VMap t_any_map false [(vstr "p", vi64 1)]])])].
+Definition x_plugin_desc : gval :=
+  dobj [("steps", dmap [(vstr "s", dobj [("id", vstr "s"); ("input", x_node);
+                                          ("outputs", dmap [(vstr "ok", dobj [("schema", x_good)])])])])].
+
+Example C10_usable_hypotheses_satisfiable :
+  match rebuild x_words x_pu x_cu x_rp x_jor x_node with
+  | Ok s =>
+      negb (foreign_refs s) && wf_use (mkEnv [] [] x_jor) s
+      && no_inline_cycle (mkEnv [] [] x_jor) s && defaults_total x_words x_pu 20 (mkEnv [] [] x_jor) s
+      && is_ok (unser x_words x_pu (fuel_bound 20 (mkEnv [] [] x_jor) s x_node_value) (mkEnv [] [] x_jor) s x_node_value)
+      && is_err (unser x_words x_pu (fuel_bound 20 (mkEnv [] [] x_jor) s (vstr "foo")) (mkEnv [] [] x_jor) s (vstr "foo"))
+  | _ => false
+  end = true.
+Proof. vm_compute. reflexivity. Qed.
+
+Example C10_usable_plugin_hypotheses_satisfiable :
+  match rebuild_plugin x_words x_pu x_cu x_rp x_jor x_plugin_desc with
+  | Ok p =>
+      (List.length (plugin_scopes p) =? 2)%nat
+      && forallb (fun s => no_inline_cycle (mkEnv [] [] x_jor) s && defaults_total x_words x_pu 20 (mkEnv [] [] x_jor) s)
+                 (plugin_scopes p)
+  | _ => false
+  end = true.
+Proof. vm_compute. reflexivity. Qed.
+
+(* ---- the hypotheses are needed ---- *)
+
+(* known finding D11 showing through C10: the description of scope(A{x: ref A}) is accepted (by UnserializeScope
+   and inside a plugin schema), the result is well-formed, no bound makes no_inline_cycle true, and
+   Unserialize("foo") never finishes (a fatal stack overflow in Go) *)
+Theorem C10_inline_cycle_refuted :
+  forall (words : list (string * bool)) (pu : units -> string -> option fl) (cu : units) (rp : string -> option re),
+  exists (jor : oracles) (d : gval) (s : schema) (v : gval),
+    rebuild words pu cu rp jor d = Ok s /\ foreign_refs s = false /\ wf_use (mkEnv [] [] jor) s = true /\
+    (forall n, no_inline_cycle_n n (mkEnv [] [] jor) s = false) /\
+    forall f, unser words pu f (mkEnv [] [] jor) s v = OutOfFuel.
+Proof. exact c10_inline_cycle_refuted. Qed.
+Print Assumptions C10_inline_cycle_refuted.
+
+(* known finding D50 through C10: scope(A{x: ref A = "{}"; n: any}) *)
+Theorem C10_default_cycle_refuted :
+  forall (words : list (string * bool)) (pu : units -> string -> option fl) (cu : units) (rp : string -> option re),
+  exists (jor : oracles) (d : gval) (s : schema) (v : gval),
+    rebuild words pu cu rp jor d = Ok s /\ foreign_refs s = false /\ wf_use (mkEnv [] [] jor) s = true /\
+    no_inline_cycle (mkEnv [] [] jor) s = true /\
+    (forall K, defaults_total words pu K (mkEnv [] [] jor) s = false) /\
+    forall f, unser words pu f (mkEnv [] [] jor) s v = OutOfFuel.
+Proof. exact c10_default_cycle_refuted. Qed.
+Print Assumptions C10_default_cycle_refuted.
+
+(* UnserializeScope accepts a reference into a namespace it cannot link (the caller is expected to apply that
+   namespace, exactly as for a scope built in code); until then the first use reaches the "unlinked reference"
+   panic.  UnserializeSchema rejects the same description. *)
+Theorem C10_scope_foreign_ref_refuted :
+  forall (words : list (string * bool)) (pu : units -> string -> option fl) (cu : units) (rp : string -> option re)
+         (jor : oracles),
+  exists s, rebuild words pu cu rp jor u_foreign = Ok s /\ foreign_refs s = true /\
+            c10_wf jor s = true /\ wf_use (mkEnv [] [] jor) s = false /\
+            is_panic (unser words pu 20 (mkEnv [] [] jor) s (VMap t_str_map false [(vstr "x", VMap t_str_map false [])])) = true.
+Proof. exact c10_scope_foreign_ref_refuted. Qed.
+Print Assumptions C10_scope_foreign_ref_refuted.
+
+Theorem C10_plugin_foreign_ref_rejected :
+  forall (words : list (string * bool)) (pu : units -> string -> option fl) (cu : units) (rp : string -> option re)
+         (jor : oracles),
+  is_err (rebuild_plugin words pu cu rp jor (u_plugin u_foreign)) = true /\
+  is_ok (rebuild_plugin words pu cu rp jor (u_plugin u_d11)) = true.
+Proof. exact c10_plugin_foreign_ref_rejected. Qed.
+Print Assumptions C10_plugin_foreign_ref_rejected.
+
+(* C04's wf_schema is not what the loader establishes: an object that is not the root may be stored under a key
+   that differs from its id.  The scope is accepted, is wf_use, and is used like any other. *)
+Theorem C10_wf_schema_not_established :
+  forall (words : list (string * bool)) (pu : units -> string -> option fl) (cu : units) (rp : string -> option re)
+         (jor : oracles),
+  exists s, rebuild words pu cu rp jor u_otherkey = Ok s /\ foreign_refs s = false /\
+            wf_schema (mkEnv [] [] jor) s = false /\ wf_use (mkEnv [] [] jor) s = true.
+Proof. exact wf_schema_too_strong_for_rebuilt. Qed.
+Print Assumptions C10_wf_schema_not_established.
+
+(* ================= Part 3: UnserializeScope, then the caller's namespaces ================= *)
+
+(* `ext`: the namespaces the caller has applied (ScopeSchema.ApplyNamespace), each a table of objects.
+   all_env use_local: those tables are themselves usable.  all_nodes ext_ok: every reference of s into another
+   namespace resolves in ext to an object, and where it is a one-of member it passes the member check that
+   ApplyNamespace performs when the namespace is applied (the loader could not check it, C10_foreign_member_accepted).
+   With ext = [] and no foreign reference this is C10_usable. *)
+Theorem C10_usable_applied_namespaces :
+  forall (words : list (string * bool)) (pu : units -> string -> option fl) (cu : units)
+         (rp : string -> option re) (jor : oracles) (d : gval) (s : schema) (ext : list (string * objtab)),
+  rebuild words pu cu rp jor d = Ok s ->
+  all_env use_local (mkEnv [] ext jor) = true -> all_nodes ext_ok (mkEnv [] ext jor) s = true ->
+  (forall (f : nat) (v : gval) (w : string),
+     unser words pu f (mkEnv [] ext jor) s v <> Panic w /\ validate words pu f (mkEnv [] ext jor) s v <> Panic w /\
+     serialize words pu f (mkEnv [] ext jor) s v <> Panic w /\ compat words pu f (mkEnv [] ext jor) s v <> Panic w)
+  /\
+  (forall K : nat, no_inline_cycle (mkEnv [] ext jor) s = true -> defaults_total words pu K (mkEnv [] ext jor) s = true ->
+     forall (v : gval) (f : nat), (fuel_bound K (mkEnv [] ext jor) s v <= f)%nat ->
+       unser words pu f (mkEnv [] ext jor) s v <> OutOfFuel /\ validate words pu f (mkEnv [] ext jor) s v <> OutOfFuel /\
+       serialize words pu f (mkEnv [] ext jor) s v <> OutOfFuel /\ compat words pu f (mkEnv [] ext jor) s v <> OutOfFuel).
+Proof. exact c10_usable_ext. Qed.
+Print Assumptions C10_usable_applied_namespaces.
+
+(* the scope of C10_scope_foreign_ref_refuted, and a one-of with a member in another namespace: accepted by
+   UnserializeScope, and with the namespace applied every hypothesis holds and values are accepted *)
+Example C10_applied_namespaces_satisfiable :
+  forallb (fun dv : gval * gval =>
+             match rebuild x_words x_pu x_cu x_rp x_jor (fst dv) with
+             | Ok s =>
+                 foreign_refs s
+                 && all_env use_local (mkEnv [] u_other_ns x_jor) && all_nodes ext_ok (mkEnv [] u_other_ns x_jor) s
+                 && no_inline_cycle (mkEnv [] u_other_ns x_jor) s
+                 && defaults_total x_words x_pu 20 (mkEnv [] u_other_ns x_jor) s
+                 && is_ok (unser x_words x_pu (fuel_bound 20 (mkEnv [] u_other_ns x_jor) s (snd dv))
+                                 (mkEnv [] u_other_ns x_jor) s (snd dv))
+             | _ => false
+             end)
+          [(u_foreign, VMap t_str_map false [(vstr "x", VMap t_str_map false [(vstr "n", vi64 1)])]);
+           (u_foreign_member,
+            VMap t_str_map false [(vstr "x", VMap t_str_map false [(vstr "kind", vstr "b"); (vstr "n", vi64 1)])])] = true.
+Proof. vm_compute. reflexivity. Qed.
+
+(* the loader does not (cannot) check a one-of member whose namespace is not applied: the same one-of is accepted
+   although, once "other" is applied, member "b" declares the discriminator field of a one-of that is not inlined *)
+Theorem C10_foreign_member_accepted :
+  forall (words : list (string * bool)) (pu : units -> string -> option fl) (cu : units) (rp : string -> option re)
+         (jor : oracles),
+  exists s, rebuild words pu cu rp jor u_foreign_member = Ok s /\ c10_wf jor s = true /\
+            all_nodes ext_ok (mkEnv [] u_other_ns_bad jor) s = false /\
+            all_nodes ext_ok (mkEnv [] u_other_ns jor) s = true.
+Proof. exact c10_foreign_member_accepted. Qed.
+Print Assumptions C10_foreign_member_accepted.
